@@ -891,8 +891,29 @@ impl MT107 {
 
         // Get reference currencies from Sequence C
         let settlement_currency = &self.field_32b.currency;
-        let ref_71f_currency = self.field_71f.as_ref().map(|f| &f.currency);
+        // Reference for 71F: Sequence C when present, otherwise the first occurrence in Sequence B
+        let ref_71f_currency = self.field_71f.as_ref().map(|f| &f.currency).or_else(|| {
+            self.transactions
+                .iter()
+                .find_map(|tx| tx.field_71f.as_ref().map(|f| &f.currency))
+        });
         let ref_71g_currency = self.field_71g.as_ref().map(|f| &f.currency);
+
+        // Sequence C 71G must use the settlement currency as well
+        if let Some(ref_currency) = ref_71g_currency
+            && ref_currency != settlement_currency
+        {
+            errors.push(SwiftValidationError::content_error(
+                "C02",
+                "71G",
+                ref_currency,
+                &format!(
+                    "Sequence C: Currency code in field 71G ({}) must be the same as in field 32B ({})",
+                    ref_currency, settlement_currency
+                ),
+                "The currency code in fields 32B and 71G must be the same for all occurrences in Sequences B and C",
+            ));
+        }
 
         // Check 32B currency consistency in Sequence B
         for (idx, transaction) in self.transactions.iter().enumerate() {
